@@ -175,3 +175,36 @@ Definition check_case (c : hcase) : list (Z * Z * Z) :=
   end.
 
 Definition mismatches (cs : list hcase) : list (Z * Z * Z) := flat_map check_case cs.
+
+(* ---------- raw backend call sequences (C14) ---------- *)
+From Sif Require Import Backends.
+
+(* one observed reply: data read, count / position, error class (0 none, 1 EOF, 2 other) *)
+Record breply := mkBR { br_data : list brun; br_n : Z; br_err : Z }.
+
+Record bcase := mkBCase {
+  bc_id : Z;
+  bc_buffer : bool;                  (* true: sif.Buffer, false: *os.File *)
+  bc_init : list brun;
+  bc_calls : list (call * breply);
+  bc_final : list brun }.
+
+Fixpoint check_calls (stp : stor -> call -> stor * reply) (cid i : Z) (s : stor)
+         (cs : list (call * breply)) : stor * list (Z * Z * Z) :=
+  match cs with
+  | [] => (s, [])
+  | (c, o) :: r =>
+      let '(s', rep) := stp s c in
+      let ok := bytes_eqb (r_data rep) (expand (br_data o)) && (r_n rep =? br_n o)
+                && (err_class (r_err rep) =? br_err o) in
+      let '(sf, ms) := check_calls stp cid (i + 1) s' r in
+      (sf, (if ok then [] else [(cid, i, 12)]) ++ ms)
+  end.
+
+(* codes: 12 a reply differs, 13 the final contents differ *)
+Definition check_bcase (c : bcase) : list (Z * Z * Z) :=
+  let stp := if bc_buffer c then buf_step else file_step in
+  let '(sf, ms) := check_calls stp (bc_id c) 1 (mkSt (expand (bc_init c)) 0) (bc_calls c) in
+  ms ++ (if bytes_eqb (st_bytes sf) (expand (bc_final c)) then [] else [(bc_id c, 0, 13)]).
+
+Definition bmismatches (cs : list bcase) : list (Z * Z * Z) := flat_map check_bcase cs.
